@@ -98,7 +98,7 @@ type c18Notifier struct {
 func (n *c18Notifier) Notify(c chan<- os.Signal, sig ...os.Signal) { n.ch = c; n.sigs = sig }
 func (n *c18Notifier) Stop(_ chan<- os.Signal)                     {}
 
-const c18Bound = 3 * time.Second
+var c18Bound = 3 * time.Second * slowFactor()
 
 func parseC18Sigs(s string) (sigs []c18Sig) {
 	if s == "-" {
